@@ -336,6 +336,9 @@ func funcsForProperty(cs *Contracts, prop string) []string {
 			continue
 		}
 		use := hasTag(fc.Props, prop) || hasTag(fc.SafeTags, prop)
+		if prop == "C10" && len(cs.Shared) > 0 && fc.Mode != "" && !fc.Pure {
+			use = true // the access discipline is checked in every function under contract
+		}
 		for _, e := range fc.Ensures {
 			if hasTag(e.Tags, prop) {
 				use = true
